@@ -348,6 +348,9 @@ type c13CrashSim struct {
 	started   bool
 	done      bool
 
+	touched   bool           // the call being applied concerns the model
+	opSeq     int            // number of such calls since the last BEGIN marker
+	labels    map[int]string // trace event index -> "op i call j" (independent of unrelated system calls)
 	nEvents   int
 	nPrefixes int
 	nRenames  int
@@ -445,6 +448,7 @@ func (s *c13CrashSim) complete(owner int, size int64, synced bool) bool {
 
 // evaluate checks the crash states reachable right after event ev.
 func (s *c13CrashSim) evaluate(ev int, line string) {
+	at := fmt.Sprintf("%s [%s]", s.labels[ev], line)
 	if s.viol != nil || !s.started {
 		return
 	}
@@ -465,20 +469,20 @@ func (s *c13CrashSim) evaluate(ev int, line string) {
 		d := c13Walk(s.baseIno, comps, true)
 		switch {
 		case isCommitted && (d == nil || d.dir):
-			s.violate("a", "DURABILITY (a): power loss right after trace event #%d [%s] with un-synced effects lost: key %q, whose upload (op %d, %d bytes) had returned successfully, no longer resolves through durable directory entries%s", ev, line, k, c, s.lens[c], inflight)
+			s.violate("a", "DURABILITY (a): power loss right after %s with un-synced effects lost: key %q, whose upload (op %d, %d bytes) had returned successfully, no longer resolves through durable directory entries%s", at, k, c, s.lens[c], inflight)
 		case d != nil && !d.dir && !s.complete(d.durOwner, d.durSize, d.synced):
-			s.violate("a", "DURABILITY (a): power loss right after trace event #%d [%s] with un-synced effects lost: key %q resolves to a file holding %d durable bytes (synced=%v) written by op %d, which wrote %d bytes: incomplete object%s", ev, line, k, d.durSize, d.synced, d.durOwner, s.lenOf(d.durOwner), inflight)
+			s.violate("a", "DURABILITY (a): power loss right after %s with un-synced effects lost: key %q resolves to a file holding %d durable bytes (synced=%v) written by op %d, which wrote %d bytes: incomplete object%s", at, k, d.durSize, d.synced, d.durOwner, s.lenOf(d.durOwner), inflight)
 		case isCommitted && !allowed[d.durOwner]:
-			s.violate("a", "DURABILITY (a): power loss right after trace event #%d [%s] with un-synced effects lost: key %q resolves to the bytes of op %d, but op %d had already returned successfully%s", ev, line, k, d.durOwner, c, inflight)
+			s.violate("a", "DURABILITY (a): power loss right after %s with un-synced effects lost: key %q resolves to the bytes of op %d, but op %d had already returned successfully%s", at, k, d.durOwner, c, inflight)
 		}
 		// (b) adversarial reordering: directory entries persisted, file data not
 		v := c13Walk(s.baseIno, comps, false)
 		if v != nil && !v.dir {
 			switch {
 			case v.dirty:
-				s.violate("b", "ATOMICITY (b): right after trace event #%d [%s] the published name %q is linked to an inode with un-synced modifications (volatile %d bytes by op %d, durable %d bytes by op %d): if the directory entry reaches the disk before the data, the key resolves to incomplete bytes%s", ev, line, k, v.size, v.owner, v.durSize, v.durOwner, inflight)
+				s.violate("b", "ATOMICITY (b): right after %s the published name %q is linked to an inode with un-synced modifications (volatile %d bytes by op %d, durable %d bytes by op %d): if the directory entry reaches the disk before the data, the key resolves to incomplete bytes%s", at, k, v.size, v.owner, v.durSize, v.durOwner, inflight)
 			case !s.complete(v.durOwner, v.durSize, v.synced):
-				s.violate("b", "ATOMICITY (b): right after trace event #%d [%s] the published name %q is linked to an inode whose durable content is %d bytes (synced=%v) of the %d written by op %d: the data was not synced before the name was published%s", ev, line, k, v.durSize, v.synced, s.lenOf(v.durOwner), v.durOwner, inflight)
+				s.violate("b", "ATOMICITY (b): right after %s the published name %q is linked to an inode whose durable content is %d bytes (synced=%v) of the %d written by op %d: the data was not synced before the name was published%s", at, k, v.durSize, v.synced, s.lenOf(v.durOwner), v.durOwner, inflight)
 			}
 		}
 	}
@@ -503,6 +507,13 @@ func (s *c13CrashSim) touchFile(n *c13Inode, truncate bool) {
 
 // apply one completed system call to the model.
 func (s *c13CrashSim) apply(ev int, c c13Sys) {
+	s.touched = false
+	defer func() {
+		if s.touched {
+			s.opSeq++
+		}
+		s.labels[ev] = fmt.Sprintf("op %d call %d", s.curOp, s.opSeq)
+	}()
 	arg := func(i int) string {
 		if i < len(c.args) {
 			return c.args[i]
@@ -542,6 +553,7 @@ func (s *c13CrashSim) apply(ev int, c c13Sys) {
 			delete(s.fds, int(c.ret))
 			return
 		}
+		s.touched = true
 		n := c13Walk(s.baseIno, comps, false)
 		if n == nil {
 			if !strings.Contains(flags, "O_CREAT") {
@@ -576,6 +588,9 @@ func (s *c13CrashSim) apply(ev int, c c13Sys) {
 			}
 			return
 		}
+		if fd != nil {
+			s.touched = true
+		}
 		if fd == nil || !c.ok || fd.ino.dir || c.ret == 0 {
 			return
 		}
@@ -602,6 +617,7 @@ func (s *c13CrashSim) apply(ev int, c c13Sys) {
 			return
 		}
 		s.nFsyncs++
+		s.touched = true
 		n := fd.ino
 		if n.dir {
 			n.durEnts = make(map[string]*c13Inode, len(n.ents))
@@ -643,6 +659,7 @@ func (s *c13CrashSim) apply(ev int, c c13Sys) {
 			return
 		}
 		s.nRenames++
+		s.touched = true
 		n := sp.ents[sn]
 		delete(sp.ents, sn)
 		dp.ents[dn] = n
@@ -667,6 +684,7 @@ func (s *c13CrashSim) apply(ev int, c c13Sys) {
 			s.desync = fmt.Sprintf("event #%d mkdir %q does not fit the model", ev, p)
 			return
 		}
+		s.touched = true
 		n := s.newInode(true)
 		n.madeEv, n.madeOp, n.parent, n.name = ev, s.curOp, par, name
 		par.ents[name] = n
@@ -692,6 +710,7 @@ func (s *c13CrashSim) apply(ev int, c c13Sys) {
 			s.desync = fmt.Sprintf("event #%d unlinks %q, unknown to the model", ev, p)
 			return
 		}
+		s.touched = true
 		delete(par.ents, name)
 	}
 }
@@ -710,6 +729,7 @@ func (s *c13CrashSim) marker(ev int, m string) {
 		s.done = true
 	case "B":
 		s.curOp, _ = strconv.Atoi(f[1])
+		s.opSeq = 0
 	case "E":
 		i, _ := strconv.Atoi(f[1])
 		if i != s.curOp || len(f) < 3 {
@@ -749,11 +769,11 @@ func (s *c13CrashSim) marker(ev int, m string) {
 				}
 				switch {
 				case self < 0:
-					s.violate("c", "MKDIR (c): Upload(%q) (op %d) returned nil, it created directory %q (trace event #%d), and that directory was never fsynced before the upload returned", op.Key, i, mk.relPath, mk.ev)
+					s.violate("c", "MKDIR (c): Upload(%q) (op %d) returned nil, it created directory %q (%s), and that directory was never fsynced before the upload returned", op.Key, i, mk.relPath, s.labels[mk.ev])
 				case parentAny < 0:
-					s.violate("c", "MKDIR (c): Upload(%q) (op %d) returned nil, it created directory %q (trace event #%d), and the parent directory was not fsynced afterwards: the new directory's entry is not durable", op.Key, i, mk.relPath, mk.ev)
+					s.violate("c", "MKDIR (c): Upload(%q) (op %d) returned nil, it created directory %q (%s), and the parent directory was not fsynced afterwards: the new directory's entry is not durable", op.Key, i, mk.relPath, s.labels[mk.ev])
 				case parentAfterSelf < 0:
-					s.violate("c", "MKDIR (c): Upload(%q) (op %d) created directory %q (trace event #%d); its parent was fsynced (event #%d) only before the new directory itself (event #%d): the entry can become durable before the directory it names", op.Key, i, mk.relPath, mk.ev, parentAny, self)
+					s.violate("c", "MKDIR (c): Upload(%q) (op %d) created directory %q (%s); its parent was fsynced (%s) only before the new directory itself (%s): the entry can become durable before the directory it names", op.Key, i, mk.relPath, s.labels[mk.ev], s.labels[parentAny], s.labels[self])
 				}
 			}
 		}
@@ -802,8 +822,9 @@ func c13GenCrashOps(t *rapid.T, m *c13Model, bigPermille int) []c13Op {
 		mutable := c13SortedKeys(m.files, func(o *c13Obj) bool { return !o.immutable })
 		immut := c13SortedKeys(m.files, func(o *c13Obj) bool { return o.immutable })
 		all := c13SortedKeys(m.files, nil)
-		kind := rapid.SampledFrom([]string{"new", "new", "new", "new-imm", "new-imm", "overwrite", "overwrite", "overwrite",
-			"reup-identical", "reup-different", "discard", "fetch"}).Draw(t, "op")
+		// (rapid favours the front of the list)
+		kind := rapid.SampledFrom([]string{"new-imm", "overwrite", "new", "reup-identical", "reup-different", "new", "overwrite",
+			"new-imm", "discard", "reup-identical", "fetch", "new"}).Draw(t, "op")
 		bp := bigPermille
 		if bigs > 0 {
 			bp = 0
@@ -881,9 +902,9 @@ func TestVerifC13Crash(t *testing.T) {
 	if err != nil {
 		t.Fatalf("VERIF-INCONCLUSIVE: os.Executable: %v", err)
 	}
-	bigPermille := 15
+	bigPermille := 2 // numerator for c13Rare
 	if vfstat.Thorough() {
-		bigPermille = 40
+		bigPermille = 5
 	}
 	rapid.Check(t, func(t *rapid.T) {
 		precreate := rapid.IntRange(0, 4).Draw(t, "rootExists") > 0
@@ -957,6 +978,7 @@ func TestVerifC13Crash(t *testing.T) {
 						}
 					}
 					existing = m2.files[c13Rel(ops[i].Key)]
+					t.Logf("evidence of spinning (traced helper process): %s", evidence)
 					t.Fatalf("%s\n  (observed in the traced helper process) sequence: %s",
 						c13HangMessage(c13UploadDesc(ops[i].Key, ops[i].Content.N, ops[i].Imm), existing, &c13Hang{where: where, evidence: evidence}), desc)
 				}
@@ -970,7 +992,7 @@ func TestVerifC13Crash(t *testing.T) {
 			t.Fatalf("VERIF-INCONCLUSIVE: cannot parse the strace output: %v", err)
 		}
 		sim := &c13CrashSim{base: a.base, cwd: work, fds: map[int]*c13FD{}, markerFD: -1, ops: ops, curOp: -1,
-			committed: map[string]int{}, results: map[int]string{}}
+			committed: map[string]int{}, results: map[int]string{}, labels: map[int]string{}}
 		sim.rootRel = []string{"root"}
 		sim.baseIno = sim.newInode(true)
 		// pre-existing, durable content of the parent directory
@@ -1020,7 +1042,7 @@ func TestVerifC13Crash(t *testing.T) {
 			}
 			sim.evaluate(ev, c.line)
 			if sim.viol != nil {
-				t.Fatalf("%s\n  sequence: %s", sim.viol.msg, desc)
+				t.Fatalf("%s\n  sequence: %s", c13Det(sim.viol.msg, a.base, work), desc)
 			}
 		}
 		if !sim.started || !sim.done {
@@ -1033,14 +1055,14 @@ func TestVerifC13Crash(t *testing.T) {
 				t.Fatalf("VERIF-INCONCLUSIVE: no result marker for op %d", i)
 			}
 			if op.Expect != "any" && got != op.Expect {
-				t.Fatalf("op %d %s returned %q, the model expects %q\n  markers: %s\n  sequence: %s", i, descParts[i], got, op.Expect, c13Tail(string(markers), 800), desc)
+				t.Fatalf("op %d %s returned %q, the model expects %q\n  markers: %s\n  sequence: %s", i, descParts[i], got, op.Expect, c13Det(c13Tail(string(markers), 800), a.base, work), desc)
 			}
 		}
 		if d := m.CheckTree(a.root); d != "" {
-			t.Fatalf("after the traced sequence the backend directory disagrees with the model: %s\n  sequence: %s", d, desc)
+			t.Fatalf("after the traced sequence the backend directory disagrees with the model: %s\n  sequence: %s", c13Det(d, a.base, work), desc)
 		}
 		if d, err := a.CheckConfined(); err != nil || d != "" {
-			t.Fatalf("CONFINEMENT: the traced sequence changed something outside the backend directory: %s %v\n  sequence: %s", d, err, desc)
+			t.Fatalf("CONFINEMENT: the traced sequence changed something outside the backend directory: %s %v\n  sequence: %s", c13Det(d, a.base, work), err, desc)
 		}
 		// the parsed model must describe the real directory, otherwise the verdicts above mean nothing
 		real := map[string]int64{}
